@@ -1611,5 +1611,5 @@ class XsdAlternative(XsdComponent):
         try:
             result = list(self.token.select(context=XPathContext(elem)))
             return self.token.boolean_value(result)
-        except (TypeError, ValueError):
-            return False
+        except (TypeError, ValueError, ArithmeticError):
+            return False  # ArithmeticError: e.g. division by zero or year overflow in XPath
